@@ -421,6 +421,23 @@ def content_condition(g, key):
     return []
 
 
+def is_projection(f):
+    """an accessor: the body is nothing but a field projection / borrow / view of a parameter (`&self.definitions`,
+    `self.items.as_slice()`), so what it returns *is* the child, not a node computed from it"""
+    e = strip(f.body)
+    while e is not None:
+        k = e.get("k")
+        if k in ("AddrOf", "Unary", "Field", "Cast", "Index"):
+            e = strip(e.get("e"))
+        elif k == "MethodCall" and e["method"] in ("as_ref", "as_slice", "as_deref", "deref", "borrow", "as_str", "iter") and not e["args"]:
+            e = strip(e["recv"])
+        elif k == "Path" and "local" in e:
+            return any(b.get("local") == e["local"] for p in f.params for b in subnodes(p) if b.get("k") == "Binding")
+        else:
+            return False
+    return False
+
+
 def r12b(P, R):
     tabs = kind_tables(P, R)
     seen = {}
@@ -505,7 +522,8 @@ def r12b(P, R):
         for c in f.walk():
             if c.get("k") == "MethodCall" and c.get("method") == "print_json":
                 sites += 1
-                through = sorted({x[1] for x in pv.data_atoms(c["recv"]) if x[0] == "call" and x[1] in P.fns and JSON_MOD not in x[1]})
+                through = sorted({x[1] for x in pv.data_atoms(c["recv"]) if x[0] == "call" and x[1] in P.fns and JSON_MOD not in x[1]
+                                  and not is_projection(P.fns[x[1]])})
                 R.check("R12-b", "child-direct:%s" % short(f.path), not through, "nested nodes are printed unchanged",
                         "%s prints a nested node obtained through %s instead of the AST child itself: the emitted document differs from the "
                         "source (e.g. list / non-null wrappers of a variable type are lost)" % (f.path, [short(t) for t in through]), loc=f.loc())
@@ -869,6 +887,34 @@ def r12e(P, R):
         exits = [x for x in f.walk() if x.get("k") == "Break" and "desugar" not in (x.get("x") or "")]
         if exits:
             R.violated("R12-e", "early-break:" + short(f.path), "%s breaks out of a printing loop" % f.path, loc=f.loc())
+        # an element of a printed list passed over (`continue` / `return` inside the loop) because of what it contains or because
+        # "an equal one" was seen: every element of the source is part of the document
+        facc = f.nodes()
+        for j, (x, _) in enumerate(facc):
+            if x.get("k") not in ("Continue", "Ret") or "desugar" in (x.get("x") or ""):
+                continue
+            p, loop = facc[j][1], None
+            while p >= 0 and loop is None:
+                if facc[p][0].get("k") == "Loop":
+                    loop = facc[p][0]
+                elif facc[p][0].get("k") == "Closure":
+                    break
+                p = facc[p][1]
+            if loop is None:
+                continue
+            gs = [g for g in guards_of(f, j, stop=loop) if g["kind"] in ("cond", "pat", "arm") and g["e"] is not None]
+            what = sorted({y["method"] if y.get("k") == "MethodCall" else "%s.%s" % (y["adt"].split("::")[-1], y["field"])
+                           for g in gs for y in subnodes(g["e"])
+                           if (y.get("k") == "MethodCall" and y["method"] in MEMBERSHIP and y["method"] != "get")
+                           or (y.get("k") == "Field" and (y.get("adt") or "").startswith("nitrogql_ast::"))})
+            if what:
+                R.violated("R12-e", "skip:" + short(f.path), "%s passes over an element of a printed list (`%s` under a condition on %s): a "
+                           "definition/component that is present in the source is left out of the document depending on its content or on "
+                           "an equality with an earlier element (positions of different files can coincide)"
+                           % (f.path, "continue" if x["k"] == "Continue" else "return", what), loc=f.loc())
+            else:
+                R.undecided("R12-e", "skip:" + short(f.path), "%s leaves an iteration of a printing loop early under a condition that is not "
+                            "recognised" % f.path, loc=f.loc())
     R.holds("R12-e", "lossy:none", "%d method calls in %d JSON-printer functions, none filters/reorders" % (n, len(scope)))
     R.floor("R12-e", "method calls inspected", n, 50)
     # the runtime printers: at most the self-filter of the fragment printer (checked in R12-d) narrows the closure
